@@ -132,6 +132,29 @@ impl Check for C17 {
                     (true, g) => out.fail("C17", &case, "RejectsFlags", "Ok", &g.show(), ""),
                     (false, g) => out.fail("C17", &case, "AcceptsFlags", "an error (q and unknown letters are invalid in XSD)", &g.show(), ""),
                 }
+                // with a ';' section (g, k, K are accepted and do nothing) the dialect stays XSD
+                if want {
+                    for tail in [";", ";g", ";k", ";K", ";gkK"] {
+                        let f = format!("{}{}", flags.split(';').next().unwrap_or(""), tail);
+                        if f.contains('x') {
+                            continue;
+                        }
+                        out.inc("states");
+                        out.inc("validated");
+                        let case = Case::new(&scope_name, "a+?", &f).xsd(true).api("compile");
+                        match imp::compile("a+?", &f, true) {
+                            Out::Err(_) => {}
+                            o if o.is_crash() => out.inc("inconclusive_crash"),
+                            _ => out.fail("C17", &case, "XsdAcceptsInvalid", "an error (reluctant quantifier)", "Ok", "flag string with a ';' section"),
+                        }
+                        if let Out::Ok(re) = imp::compile("^a$", &f, true) {
+                            let got = (imp::is_match(&re, "x^a$x"), imp::is_match(&re, "a"));
+                            if got != (Out::Ok(true), Out::Ok(false)) {
+                                out.fail("C17", &Case::new(&scope_name, "^a$", &f).xsd(true).input("x^a$x / a").api("is_match"), "AnchorsNotLiteral", "true / false (^ and $ are ordinary characters)", &format!("{} / {}", got.0.show(), got.1.show()), "flag string with a ';' section");
+                            }
+                        }
+                    }
+                }
                 out.sample(J::obj(vec![("flag_string", J::s(&flags))]));
             }
             return;
